@@ -815,7 +815,12 @@ class KconfigGrammar:
         # Every config/choice can have max. one prompt which is used to show to the user.
         # Optionally, it can be conditioned.
         # Explicit inline prompt parsing occurs because in some cases, inline prompt is not part of an option block.
-        inline_prompt = (QuotedString('"') | QuotedString("'")) + Opt(inline_condition)
+        # Backslash escapes are processed like in the option-block tokens and in parser v1: "\x" stands for "x"
+        # (so a title may contain its own quote character as \" resp. \').
+        def title_string(quote_char: str) -> QuotedString:
+            return QuotedString(quote_char, esc_char="\\", convert_whitespace_escapes=False)
+
+        inline_prompt = (title_string('"') | title_string("'")) + Opt(inline_condition)
 
         ###########################
         # Config
@@ -930,7 +935,7 @@ class KconfigGrammar:
 
         menu << (
             Keyword("menu")
-            - QuotedString('"')
+            - title_string('"')
             + Opt(KconfigOptionBlock().leave_whitespace())
             + entries
             + Keyword("endmenu")
@@ -948,7 +953,7 @@ class KconfigGrammar:
         # Main menu
         ###########################
         mainmenu = (
-            (Keyword("mainmenu") - (QuotedString('"') | QuotedString("'")) + entries)
+            (Keyword("mainmenu") - (title_string('"') | title_string("'")) + entries)
             .set_parse_action(parser.parse_mainmenu)
             .set_name("mainmenu")
         )
